@@ -12,6 +12,8 @@ if old not in s: print("MUTATION TARGET NOT FOUND"); sys.exit(1)
 open(p,'w').write(s.replace(old,new,1))
 PY
 cd /verif
+rm -rf /verif/build/evidence.bak; cp -r /verif/evidence /verif/build/evidence.bak
 timeout ${MUT_TIMEOUT:-600} bin/check $ID --tier ${MUT_TIER:-quick} 2>&1 | grep -E "VIOLATION|KNOWN-FINDING|ENGINE-ERROR|signature" | cut -c1-260 | head -${MUT_LINES:-6}
 echo "rc=${PIPESTATUS[0]}"
 git -C /repo checkout -- src
+cp /verif/build/evidence.bak/*.json /verif/evidence/ 2>/dev/null
